@@ -503,6 +503,12 @@ def contains(ip, container, item):
             return z3.Contains(z3.StringVal(py), str_term(ip, item_n))
         raise OutOfReach(f'in on concrete {type(py).__name__}')
     if isinstance(container, Obj):
+        if container.kind == 'tableset':
+            rel = z3.Function('TABLE_IN_' + container.f['name'], Str, Str, Bool)
+            item_n = norm(ip, item)
+            if kind_of(ip, item_n) != 'str' and not (isinstance(item_n, S) and ctx.must(is_str(item_n.t))):
+                return False
+            return rel(container.f['key'], str_term(ip, item_n))
         if container.kind in ('tuple', 'set'):
             conds = []
             for x in container.f['items']:
@@ -596,6 +602,18 @@ def subscript(ip, obj, idx):
                 return ctx.wrap(py[idx_n.py])
             except (KeyError, IndexError, TypeError) as e:
                 raise_(type(e).__name__, str(e))
+        if isinstance(py, dict) and len(py) > 8 and all(isinstance(v, (set, frozenset)) for v in py.values()):
+            # a large constant table of sets indexed with a symbolic key: membership in the result is an uninterpreted
+            # relation (the table's contents are checked by an exhaustive table lemma)
+            from .models_calls import TABLE_NAMES, used
+            name = TABLE_NAMES.get(id(py))
+            if name is not None:
+                kt = key_term(ip, idx_n)
+                used(f'{name}[symbolic key]: membership as an uninterpreted relation (contents checked by the table lemma)')
+                inn = z3.Or([kt == z3.StringVal(k) for k in py.keys()])
+                if not ctx.branch(inn):
+                    raise_('KeyError', 'key')
+                return Obj('tableset', name=name, key=kt)
         if isinstance(py, dict):
             # symbolic key into a concrete dict
             kt = key_term(ip, idx_n)
